@@ -63,6 +63,19 @@ class Ctx:
         return index % self.nshards == self.shard
 
 
+def load_all_y0():
+    """Import what the workloads will import, so that import-time warnings of the dependencies (which ``-W error`` would
+    turn into import failures unrelated to any property) are issued before the filter is installed."""
+    for m in ("y0.dsl", "y0.graph", "y0.algorithm.identify", "y0.algorithm.transport", "y0.algorithm.tian_id",
+              "y0.algorithm.conditional_independencies", "y0.algorithm.separation.sigma_separation",
+              "y0.algorithm.counterfactual_transport.api", "y0.algorithm.simplify_latent", "y0.algorithm.taheri_design",
+              "y0.mutate", "y0.parser", "y0.examples", "numpy", "networkx"):
+        try:
+            importlib.import_module(m)
+        except Exception:  # noqa: BLE001
+            pass
+
+
 def load_prop(prop: str):
     return importlib.import_module(f"vmon.props.{prop.lower()}")
 
@@ -98,6 +111,17 @@ def child_main(args) -> int:
         lg.setLevel(logging.DEBUG)
         lg.addHandler(_Sink())
         kernel.count("logging:debug-enabled-shards")
+    warn_err = (args.shard % 4 == 2 or os.environ.get("VERIF_WARNINGS_AS_ERRORS") == "1") \
+        and os.environ.get("VERIF_WARNINGS_AS_ERRORS") != "0"
+    if warn_err:
+        # a process setting: every fourth shard runs the way ``python -W error`` / pytest ``filterwarnings = error``
+        # does once everything is imported - a warning issued on a valid input then ends the call with an exception,
+        # which the totality clauses judge like any other
+        import warnings
+
+        load_all_y0()
+        warnings.simplefilter("error")
+        kernel.count("warnings:as-errors-shards")
     try:
         mod.run_shard(ctx)
     except Exception as e:  # noqa: BLE001
@@ -127,7 +151,8 @@ def child_main(args) -> int:
         "nontrivial": sorted(ctx.nontrivial),
         "samples": ctx.samples,
         "extras": ctx.extras,
-        "violations": [dict(v, hashseed=os.environ.get("PYTHONHASHSEED")) for v in kernel.LOG.violations[:200]],
+        "violations": [dict(v, hashseed=os.environ.get("PYTHONHASHSEED"), warnings_as_errors=bool(warn_err))
+                       for v in kernel.LOG.violations[:200]],
         "n_violations": len(kernel.LOG.violations),
         "counters": dict(kernel.LOG.counters),
         "monitor_errors": kernel.LOG.monitor_errors,
@@ -377,7 +402,7 @@ def run_parent(args) -> int:
         "inconclusive_reasons": inconclusive,
         "shards": nshards,
         "hash_seeds": "one PYTHONHASHSEED per shard: (VERIF_SEED*17 + shard) mod 4096",
-        "interpreter_modes": "shards 1,5,9,13 run under python -O; shards 3,7,11,15 with the root logger at DEBUG",
+        "interpreter_modes": "shards 1,5,9,13 run under python -O; shards 3,7,11,15 with the root logger at DEBUG; shards 2,6,10,14 with warnings turned into errors",
         "repo": REPO,
     }
     cov.update(extras)
@@ -419,6 +444,11 @@ def run_replay(args) -> int:
         return subprocess.run([sys.executable, "-m", "vmon.runner", args.prop, "--replay", args.replay], env=env,
                               cwd=VERIF_DIR).returncode
     case = data.get("case", data)
+    if data.get("warnings_as_errors"):
+        import warnings
+
+        load_all_y0()
+        warnings.simplefilter("error")
     mod.replay(case)
     found, _ = load_findings(args.prop)
     rc = 0
